@@ -220,7 +220,11 @@ func Replay(path string) (int, error) {
 		if err != nil {
 			return 2, err
 		}
-		c.check(ctx, st, startObs, bulkCase{State: rp.StartState, Elems: elems, Opts: rp.Options}, solo)
+		soloTx, err := soloRunInTx(ctx, st, elems)
+		if err != nil {
+			return 2, err
+		}
+		c.check(ctx, st, startObs, bulkCase{State: rp.StartState, Elems: elems, Opts: rp.Options}, solo, soloTx)
 		for k, v := range c.notes.snapshot() {
 			r.Note(fmt.Sprintf("%s (x%d)", k, v))
 		}
